@@ -7,7 +7,21 @@ through `Message::decode(Bytes)` -- the zero-copy path: FastStr / Bytes fields a
 counting global allocator, keeps a second handle to the input, drops the result (value or error), and reports
   ok|err LIVE <live heap bytes after dropping result AND input, minus before the input existed> REFS <0|1>
 (REFS 1 = the kept handle is not unique after the drop: something still references the input buffer).  Whenever
-decoding fails -- and also when it succeeds -- LIVE must be 0 and REFS must be 0.
+decoding fails -- and also when it succeeds -- LIVE must be 0 and REFS must be 0.  The same line carries
+  HELD <live heap blocks while the result is still held> HREFS <0|1: the held result references the input buffer>.
+
+Model correspondence: the extracted ownership model (fam/pb/coq/Own.v, runner op `own`) runs on the same inputs and predicts
+the outcome and the ledger (live heap blocks, live handles on the input) at the moment decode has returned: empty after a
+failure (C19_pb_no_leak), what the value holds after a success.  Compared per case:
+  outcome                     ok / err must agree
+  failure                     the model's ledger is H0 R0 (theorem) and the measurement is LIVE 0 REFS 0
+  success                     HREFS = 1 exactly when the model's ledger has R + T > 0 (R: a non-empty Bytes field or a FastStr beyond
+                              the inline capacity somewhere in the value; T: an empty bytes field cut at the very end of the
+                              input -- Bytes::split_to returns the whole handle there); H <= HELD <= H + B where B (printed by the runner)
+                              counts the places of the value where the generated struct may hold a Box (the model does not
+                              count boxes: the schema does not say which fields pilota-build boxed)
+(the Vec<u8> wrapper impl shares the codec module of Bytes in the model: its predicted handle is a heap block).  A
+disagreement on an input where the implementation itself is clean is a broken correspondence (VIOLATION with the input).
 
 Inputs: for every message type of the .proto corpus (and the wrapper impls of types.rs): reference encodings of generated
 values (covering values, random values, and for every repeated-message field / map with message values / oneof message
@@ -23,7 +37,62 @@ every exit)."""
 import os, random, re
 from .. import core, pbgen
 
-LEAK_RE = re.compile(r"^(ok|err) LIVE (-?\d+) REFS (\d)$")
+LEAK_RE = re.compile(r"^(ok|err) LIVE (-?\d+) REFS (\d)(?: HELD (-?\d+) HREFS (\d))?$")
+OWN_RE = re.compile(r"^(ok|err|panic) H(-?\d+) R(-?\d+) T(-?\d+)(?: B(\d+))?")
+MODEL_MAX_HEX = 1600          # the extracted model is quadratic in the input length: longer inputs go to it 1 in 8 times
+
+
+def inline_cap_check():
+    """FastStr's inline capacity is a constant of an external crate that own_scalar (Own.v) uses: re-read it from the
+    source of the faststr version pinned for the harness.  -> (ok, text)"""
+    import glob
+    fam = core.Family("pb")
+    try:
+        own = open(os.path.join(fam.coq, "Own.v"), encoding="utf-8").read()
+        mine = int(re.search(r"Definition faststr_inline_cap : Z := (\d+)\.", own).group(1))
+        lock = open(os.path.join(fam.harness_dir, "Cargo.lock"), encoding="utf-8").read()
+        ver = re.search(r'name = "faststr"\nversion = "([^"]+)"', lock).group(1)
+    except Exception as e:
+        return False, "cannot determine faststr version / model constant: %r" % (e,)
+    srcs = glob.glob(os.path.expanduser("~/.cargo/registry/src/*/faststr-%s/src/lib.rs" % ver))
+    if not srcs:
+        return True, "faststr %s source not in the cargo registry: INLINE_CAP not re-read (model: %d)" % (ver, mine)
+    m = re.search(r"const INLINE_CAP: usize = (\d+);", open(srcs[0], encoding="utf-8").read())
+    if not m:
+        return False, "faststr %s: `const INLINE_CAP` not found" % ver
+    if int(m.group(1)) != mine:
+        return False, "faststr %s INLINE_CAP = %s, Own.v faststr_inline_cap = %d" % (ver, m.group(1), mine)
+    return True, "faststr %s INLINE_CAP = %d (= Own.v)" % (ver, mine)
+
+
+def compare_own(msg, impl, model):
+    """None, or what differs between the measurement (LEAK_RE match) and the model's prediction (runner line)"""
+    mo = OWN_RE.match(model or "")
+    if not mo:
+        return "the model runner did not answer: %s" % (model or "")[:120]
+    st, h, r, tl = mo.group(1), int(mo.group(2)), int(mo.group(3)), int(mo.group(4))
+    if st == "panic":
+        return "the model predicts a panic, the implementation returned"
+    if st != impl.group(1):
+        return "outcome: implementation %s, model %s" % (impl.group(1), st)
+    if st == "err":
+        if h != 0 or r != 0 or tl != 0:
+            return "the model's ledger after a failed decode is not empty (H%d R%d T%d)" % (h, r, tl)
+        return None
+    if impl.group(4) is None:
+        return None
+    held, hrefs = int(impl.group(4)), int(impl.group(5))
+    b = int(mo.group(5) or 0)
+    if not 0 <= tl <= 1:
+        return "the model's ledger has %d tail handles" % tl
+    if msg.wrapper == "Vec<u8>":
+        h, r, tl = h + r, 0, 0        # replace_with copies into the Vec and drops the handle
+    if (r + tl > 0) != (hrefs == 1):
+        return "the value %s the input buffer, the model's ledger has %d handle(s) (+ %d of an empty tail slice)" % (
+            "references" if hrefs else "does not reference", r, tl)
+    if not (h <= held <= h + b):
+        return "%d heap block(s) held by the value, the model predicts %d (+ at most %d boxes)" % (held, h, b)
+    return None
 LONG = [b"L" * 40, b"long string value beyond the inline capacity of FastStr \xc3\xa9\xe2\x82\xac", bytes(range(65, 65 + 58)), b"m" * 33, b"z" * 200]
 
 
@@ -153,13 +222,16 @@ RULE = ("generated protobuf decoders (real pilota-build output for the .proto co
         "(quick: sampled <= 24) truncation point, and with single-byte replacements (0x00 tag zero, 0x07 invalid wire type, 0xff "
         "run-on varint, top bit flipped; quick: 2 of the 4) at every offset of the forced cases and at sampled (quick: <= 40; "
         "thorough: all) offsets of the others, bytes inside nested elements included. Oracle on the implementation alone: the "
-        "answer is `ok|err LIVE 0 REFS 0`; LIVE != 0 or REFS != 0 is a leak, PANIC / CRASH means the measurement could not be "
-        "made. non-trivial = decoding failed; distinct by SHA-1 of the case line")
+        "answer is `ok|err LIVE 0 REFS 0 HELD b HREFS h`; LIVE != 0 or REFS != 0 is a leak, PANIC / CRASH means the measurement "
+        "could not be made. Model correspondence: the extracted ownership model (Own.v, runner op `own`) on the same inputs "
+        "(inputs beyond 1600 hex digits: 1 in 8): same outcome; empty ledger after a failure; after a success HREFS = 1 iff the "
+        "predicted ledger holds a handle on the input, and predicted blocks <= HELD <= predicted + possible boxes. "
+        "non-trivial = decoding failed; distinct by SHA-1 of the case line")
 
 
 def run(chk, replay=None):
     fam = core.Family("pb")
-    gate, hb = core.std_setup(chk, need_runner=False, fam=fam)
+    gate, hb = core.std_setup(chk, need_runner=True, fam=fam)
     chk.cov["rule"] = RULE
     chk.cov["checker_cmd"] = ("make -C fam/pb/coq Properties/C19.vo && coqc -Q coq PV -Q fam/pb/coq PVPb Properties/C19.v "
                               "(Print Assumptions allowlist, forbidden-vernacular grep)")
@@ -179,9 +251,29 @@ def run(chk, replay=None):
         outs = []
         for i in range(0, len(cases), 50000):        # batches: the line runner's stall detection is per process
             outs += pbgen.run_driver(gbin, cases[i:i + 50000])
+        # ---- the ownership model's predictions (extracted Own.own_decode through the runner, op `own`)
+        sel, nlong = [], 0
+        for i, c in enumerate(cases):
+            ln = pbgen.strip_ann(c)
+            if len(ln) > MODEL_MAX_HEX:
+                nlong += 1
+                if nlong % 8:
+                    continue
+            sel.append(i)
+        mouts = {}
+        if os.path.exists(fam.runner):
+            schema = pbgen.write_model_schema(corpus)
+            lines = ["own " + pbgen.strip_ann(cases[i]).split(" ", 1)[1] for i in sel]
+            for i, mo in zip(sel, core.run_lines(fam.runner, lines, args=["--schema", schema])):
+                mouts[i] = mo
+        mism, mtags = [], {"compared": 0, "ok-held-compared": 0, "skipped-long": len(cases) - len(sel)}
+        okc, txt = inline_cap_check()
+        chk.notes.append(txt)
+        if not okc:
+            chk.violation("C19 pb: " + txt, dict(kind="corpus", part="pb", what="faststr INLINE_CAP"), no_input=True)
         outcomes = {"ok": 0, "err": 0, "other": 0}
         per_msg_err = {}
-        for c, o in zip(cases, outs):
+        for ci, (c, o) in enumerate(zip(cases, outs)):
             mm = LEAK_RE.match(o or "")
             if not mm:
                 outcomes["other"] += 1
@@ -202,6 +294,13 @@ def run(chk, replay=None):
                     what.append("a reference to the input buffer survives")
                 failing.append((c, "after a %s decode of %s and dropping the result: %s" % (
                     "failed" if st == "err" else "successful", corpus[int(c.split()[1])].name, " and ".join(what)), o))
+            elif ci in mouts:
+                mtags["compared"] += 1
+                if st == "ok" and mm.group(4) is not None:
+                    mtags["ok-held-compared"] += 1
+                d = compare_own(corpus[int(c.split()[1])], mm, mouts[ci])
+                if d:
+                    mism.append((c, o, mouts[ci], d))
         for c in (cases[:1] + cases[len(cases) // 2:len(cases) // 2 + 1] + cases[-1:]):
             chk.sample(c[:300])
         dist = dict(kinds=kinds, outcomes=outcomes, driver_lines=len(cases), messages=len(corpus),
@@ -211,7 +310,14 @@ def run(chk, replay=None):
                     oneof_message_members=sum(1 for m in corpus for s in m.slots if s.kind == "u" for x in s.members if x.ty == "message"))
         chk.cov["disagreements_checked"] = len(cases)
     chk.cov.setdefault("distribution", {}).update(dist)
-    chk.cov["model_impl_mismatches"] = 0
+    chk.cov["model_impl_mismatches"] = len(mism) if hb else 0
+    if hb:
+        chk.cov.setdefault("distribution", {})["ownership_model"] = mtags
+        for c, o, mo, d in mism[:3]:
+            chk.violation("correspondence pb-ownership broken: the ownership model (fam/pb/coq/Own.v, runner op `own`) and the "
+                          "measurement disagree: " + d,
+                          dict(kind="correspondence", correspondence="pb-ownership", part="pb", case=c, impl_output=(o or "")[:300],
+                               model_output=(mo or "")[:300]))
     for c, why, o in failing[:3]:
         chk.violation("C19 fails on the implementation (protobuf): " + why,
                       dict(kind="case", level="gen", part="pb", case=c, impl_output=(o or "")[:500]))
